@@ -66,8 +66,8 @@ fn strategy(_tier: Tier) -> BoxedStrategy<Case> {
             d
         })
     });
-    // one document in six has no read bases at all: every mapped read becomes a reference skip of
-    // its span (CIGAR `kN`, SEQ `*`). `cram::fs::index` decodes records without a reference
+    // one document in six has no read bases in its mapped reads: every one becomes a reference skip of
+    // its span (CIGAR `kN`, SEQ `*`, read length 0). `cram::fs::index` decodes records without a reference
     // repository, which on the pinned tree panics for a multi-reference slice whose mapped reads
     // carry bases (known finding); reads without bases are what lets the multi-reference branch of
     // the indexer run to the end and its entries be compared
@@ -86,14 +86,8 @@ fn strategy(_tier: Tier) -> BoxedStrategy<Case> {
                 };
                 for r in reads {
                     if let g::Body::Mapped(a) = &mut r.body {
-                        let span: u32 = a.edits.iter().map(|e| match e {
-                            g::Edit::Eq(n) | g::Edit::Del(n) | g::Edit::Skip(n) => *n as u32,
-                            g::Edit::Sub(_) => 1,
-                            _ => 0,
-                        }).sum();
-                        a.edits = vec![g::Edit::Skip(span.clamp(1, 60_000) as u16)];
-                        a.lead_soft.clear();
-                        a.trail_soft.clear();
+                        a.skip_only = true;
+                        a.bases_missing = false;
                         r.qual = g::Qual::Missing;
                     }
                 }
